@@ -652,6 +652,12 @@ def r5_match_protocol(repo, report):
         # helpers that go through remainder(matches) use remainder_interval of each element
         if any(isinstance(x, ast.Call) and chain(x.func) == "remainder" for x in ast.walk(fn)):
             used.add("remainder_interval")
+        # a helper does what its action says or fails: it does not catch the failure and do something else instead
+        swallow = [src(h_.type) if h_.type is not None else "bare except" for t_ in ast.walk(fn) if isinstance(t_, ast.Try) for h_ in t_.handlers
+                   if h_.type is None or any(nm in src(h_.type) for nm in ("AttributeError", "Exception", "TypeError"))]
+        report.ob("C03.R5", f"AdapterCutter.{h} does not fall back to another result", not swallow, facts={"handlers": swallow}, loc=repo.loc(fn),
+                  expected="no handler for AttributeError/Exception around the use of the match",
+                  why=(f"{h} catches {swallow[0]} and returns something else: for a match class without the attributes it needs (a linked match) the action silently becomes another one (e.g. crop behaves like trim) instead of failing" if swallow else ""))
         for cls in concrete:
             n += 1
             missing = sorted(a for a in used if not provides(cls, a))
